@@ -260,6 +260,32 @@ def desugar_combinators(m, prog=None):
     return m
 
 
+def desugar_ne(m, prog):
+    """`a != b` on a crate type is the provided method `PartialEq::ne` = `!eq(a, b)`; written out so that the type's own `eq` can be spliced in."""
+    for b in list(m["blocks"]):
+        t = b["term"]
+        if t["k"] != "call" or "callee" not in t or t.get("target") is None or t["dest"]["p"]:
+            continue
+        c = t["callee"]
+        if c.get("path") != "std::cmp::PartialEq::ne" or len(t["args"]) != 2:
+            continue
+        st = c.get("self_ty") or ""
+        eq = "<%s as std::cmp::PartialEq>::eq" % st
+        if eq not in prog.fns:
+            continue
+        tmp = len(m["locals"])
+        m["locals"].append({"ty": "bool", "mut": True})
+        nb = len(m["blocks"])
+        c2 = dict(c)
+        c2.update({"path": "std::cmp::PartialEq::eq", "name": "eq", "resolved": eq, "rlocal": True, "rkind": "item", "full": eq})
+        m["blocks"].append({"stmts": [{"k": "assign", "place": t["dest"], "rv": {"k": "unop", "op": "Not", "x": {"k": "move", "place": {"l": tmp, "p": [], "ty": "bool"}}},
+                                       "loc": t.get("loc", {"line": None, "file": ""})}],
+                            "term": {"k": "goto", "target": t["target"]}})
+        t["callee"] = c2
+        t["dest"] = {"l": tmp, "p": [], "ty": "bool"}
+        t["target"] = nb
+
+
 def inline_mir(prog, key, stop, maxdepth=4, _stack=(), max_blocks=6000, max_callee_blocks=None):
     """Returns (mir dict, promoted list, inlined callee keys)."""
     fn = prog.fns[key]
@@ -267,6 +293,7 @@ def inline_mir(prog, key, stop, maxdepth=4, _stack=(), max_blocks=6000, max_call
     prom = list(copy.deepcopy(fn.get("promoted") or []))
     inlined = []
     desugar_combinators(m, prog)
+    desugar_ne(m, prog)
     # drop cleanup blocks' influence: keep them (ids must stay stable) but cut unwind edges
     for b in m["blocks"]:
         t = b["term"]
@@ -323,11 +350,52 @@ def inline_mir(prog, key, stop, maxdepth=4, _stack=(), max_blocks=6000, max_call
     return m, prom, inlined
 
 
+def prune_known_switches(fn, rounds=3):
+    """After splicing a helper in, an argument that is a literal at the call site (`helper(x, Side::Left)`) makes the helper's `match` on it
+    a branch with a known outcome; the arms that cannot be taken are cut so that flow-insensitive readers do not merge their values in.
+    A switch is folded only when its discriminant is a constant / the variant of a literal aggregate whatever path reaches it."""
+    from .analyses import known_switch_value
+    cut = 0
+    for _ in range(rounds):
+        b = Body(fn)
+        changed = False
+        for i in b.rblocks:
+            t = b.blocks[i]["term"]
+            if t["k"] != "switch":
+                continue
+            try:
+                d = b.expr_operand(t["discr"])
+            except Exception:
+                continue
+            v = known_switch_value(d)
+            if v is None:
+                continue
+            tgt = None
+            for val, tb in t["targets"]:
+                if val == v:
+                    tgt = tb
+            if tgt is None:
+                tgt = t["otherwise"]
+            b.blocks[i]["term"] = {"k": "goto", "target": tgt, "pruned_switch": True, "loc": t.get("loc")}
+            cut += 1
+            changed = True
+        if not changed:
+            break
+    return cut
+
+
 def inlined_body(prog, key, stop=lambda k: False, maxdepth=4, max_callee_blocks=None):
     """Body of `key` with its local, non-stopped callees inlined.  The synthetic function keeps key, name and location."""
     ck = ("inl", key, id(stop))
     m, prom, inl = inline_mir(prog, key, stop, maxdepth, max_callee_blocks=max_callee_blocks)
+    from .sroa import scalarise
+    split = scalarise(m, prog)
     fn = dict(prog.fns[key])
+    fn["scalarised"] = split
+    if inl:
+        fn["mir"] = m
+        fn["promoted"] = prom
+        fn["pruned_switches"] = prune_known_switches(fn)
     fn["mir"] = m
     fn["promoted"] = prom
     fn["inlined"] = sorted(set(inl))
